@@ -7,6 +7,7 @@ package main
 // custom stores are dumped.  Against the Lean model `Tx.deliverTx`.
 
 import (
+	txtypes "github.com/cosmos/cosmos-sdk/types/tx"
 	burntypes "github.com/medibloc/panacea-core/v2/x/burn/types"
 	"fmt"
 	"math/rand"
@@ -272,7 +273,11 @@ func monC15FeeDenoms(s *Stream) {
 				payer = "B"
 			}
 			before, sup0 := snapshot()
-			bz, err := c.BuildTx(TxSpec{Msgs: msgs, Signers: signers, FeeCoins: fee})
+			var tip *txtypes.Tip
+			if i == 3 { // a "tip" naming a bystander who signs nothing: accepted by the tx format, must move nothing
+				tip = &txtypes.Tip{Tipper: accts[2].Bech(), Amount: sdk.NewCoins(sdk.NewInt64Coin(feeDenom, 777))}
+			}
+			bz, err := c.BuildTx(TxSpec{Msgs: msgs, Signers: signers, FeeCoins: fee, Tip: tip})
 			if err != nil {
 				return "pass #unbuildable " + err.Error()
 			}
